@@ -1,6 +1,7 @@
 package chainenv
 
 import (
+	"sync/atomic"
 	"encoding/json"
 	"fmt"
 	"os"
@@ -26,6 +27,7 @@ type ordersReq struct {
 	SeqStep bool    `json:"seq_step"`
 	WithDB  bool    `json:"with_db"`
 	Mix     bool    `json:"mix"`
+	Conc    int     `json:"conc"`
 }
 
 type orderRes struct {
@@ -97,7 +99,7 @@ func RegisterChildren() {
 		}
 		var out []orderRes
 		for k, ord := range q.Orders {
-			res := RunOrder(filepath.Join(tmpDir(), fmt.Sprintf("n%d", k)), q.Tree, ord, RunOpts{Broadcast: true, MixFlavour: q.Mix, CheckSeqEachStep: q.SeqStep, WithDB: q.WithDB})
+			res := RunOrder(filepath.Join(tmpDir(), fmt.Sprintf("n%d", k)), q.Tree, ord, RunOpts{Broadcast: true, MixFlavour: q.Mix, CheckSeqEachStep: q.SeqStep, WithDB: q.WithDB, Conc: q.Conc})
 			or := orderRes{Order: ord, Orphans: res.Orphans, Reorgs: res.Reorgs, SeqProblems: res.SeqProblems, SeqObs: res.SeqObs, Tip: res.Snap.TipHash}
 			for _, e := range res.Errs {
 				or.Problems = append(or.Problems, "valid block rejected: "+e)
@@ -286,11 +288,17 @@ func Engine(c *lib.Ctx, focus string, nTreesSmall, nTreesBig, budgetSmall, budge
 			chunks[i%workers] = append(chunks[i%workers], o)
 		}
 		results := make([][]orderRes, workers)
+		var concOrders atomic.Int64
 		lib.Parallel(workers, workers, func(w int) {
 			if len(chunks[w]) == 0 {
 				return
 			}
 			q := ordersReq{Tree: &tree, Ref: &ref, Orders: chunks[w], Winner: win, Precond: precond, SeqStep: focus == "C26", WithDB: focus == "C25", Mix: w%2 == 1}
+			if w%4 >= 2 {
+				// concurrent delivery stratum: the same order dealt to 2 or 3 goroutines delivering at once
+				q.Conc = w%4
+				concOrders.Add(int64(len(chunks[w])))
+			}
 			cr := c.Child("orders", q, lib.ChildOpts{Timeout: 15 * time.Minute})
 			if cr.TimedOut {
 				c.Inconclusive("tree %d chunk %d: watchdog fired", ti, w)
@@ -309,6 +317,7 @@ func Engine(c *lib.Ctx, focus string, nTreesSmall, nTreesBig, budgetSmall, budge
 			}
 			results[w] = rs
 		})
+		c.Count("orders_delivered_concurrently", concOrders.Load())
 		for _, rs := range results {
 			for _, r := range rs {
 				fp := lib.Fingerprint([]any{tree.Hashes, r.Order})
